@@ -125,7 +125,7 @@ func (s *Statement) Evict(reclaimeeTask *pod_info.PodInfo, message string,
 	return nil
 }
 
-func (s *Statement) commitEvict(reclaimee *pod_info.PodInfo, evictOp evictOperation) error {
+func (s *Statement) commitEvict(reclaimee *pod_info.PodInfo, evictOp evictOperation, opIndex int) error {
 	reclaimeePodGroup, found := s.ssn.ClusterInfo.PodGroupInfos[reclaimee.Job]
 	if !found {
 		return fmt.Errorf("could not reclaim pod <%v/%v> because could not find its podGroup <%v>",
@@ -136,6 +136,17 @@ func (s *Statement) commitEvict(reclaimee *pod_info.PodInfo, evictOp evictOperat
 		log.InfraLogger.Errorf("Failed to evict task <%v/%v>: %v.", reclaimee.Namespace, reclaimee.Name, err)
 		// The task is already releasing in the session (it was evicted virtually when the operation was recorded):
 		// what has to be restored is the state it had before that, which the operation holds.
+		// A later operation of the statement may have re-placed the task (consolidation nominates its victims to
+		// other nodes): a pod that was not evicted cannot move, so those operations are undone first.
+		for i := len(s.operations) - 1; i > opIndex; i-- {
+			if s.operations[i].Name() == undo || s.operations[i].TaskInfo().UID != reclaimee.UID || !s.operationValid(i) {
+				continue
+			}
+			if e := s.undoOperation(i); e != nil {
+				log.InfraLogger.Errorf("Failed to undo operation %d of task <%v/%v>: %v.",
+					i, reclaimee.Namespace, reclaimee.Name, e)
+			}
+		}
 		if e := s.unevict(reclaimee, evictOp.previousStatus, evictOp.previousNode, evictOp.previousGpuGroups,
 			evictOp.previousResourceClaimInfo, false); e != nil {
 			log.InfraLogger.Errorf("Failed to un-evict task <%v/%v>: %v.",
@@ -572,7 +583,7 @@ func (s *Statement) Commit() error {
 		case evict:
 			log.InfraLogger.V(4).Infof("Evicting task: %v/%v", taskInfo.Namespace, taskInfo.Name)
 			evictOp := op.(evictOperation)
-			if err = s.commitEvict(taskInfo, evictOp); err != nil {
+			if err = s.commitEvict(taskInfo, evictOp, i); err != nil {
 				log.InfraLogger.Errorf("Failed to evict task <%v/%v>, error: <%v>",
 					taskInfo.Namespace, taskInfo.Name, err)
 			}
